@@ -167,7 +167,7 @@ decisions, body arguments, the outcome — relative to a solution `val` of the d
 /-- a switch pipeline that returns a value returns the dataflow value of its output node, under every schedule -/
 theorem C01_switch_value (P : Program) (val : Node → Option Val) (hsw : SwP P) (hsol : SolutionSw P val)
     (s : St) (h : Reach P s) (v : Val) (ho : s.outcome = some (.value v)) : val P.g.output = some v :=
-  (safe_reach hsw hsol h).data.out (.value v) ho
+  outcome_value_sw hsw ((safe_reach_sw hsw hsol h).data.out (.value v) ho)
 
 /-- whatever the schedules, two runs of a switch pipeline that return values return the same value -/
 theorem C01_switch_values_agree (P : Program) (val : Node → Option Val) (hsw : SwP P) (hsol : SolutionSw P val)
@@ -190,8 +190,8 @@ theorem C01_switch_value_excludes_failure (P : Program) (val : Node → Option V
 theorem C01_switch_results_agree (P : Program) (val : Node → Option Val) (hsw : SwP P) (hsol : SolutionSw P val)
     (s₁ s₂ : St) (h₁ : Reach P s₁) (h₂ : Reach P s₂) (n : Node) (v₁ v₂ : Val) (hr₁ : s₁.res n = some v₁)
     (hr₂ : s₂.res n = some v₂) : v₁ = v₂ := by
-  have a := ((safe_reach hsw hsol h₁).data.agree n v₁ hr₁).1
-  have b := ((safe_reach hsw hsol h₂).data.agree n v₂ hr₂).1
+  have a := (safe_reach_sw hsw hsol h₁).data.agree n v₁ hr₁ ((safe_reach_sw hsw hsol h₁).data.noExc hsw.noHeads n v₁ hr₁)
+  have b := (safe_reach_sw hsw hsol h₂).data.agree n v₂ hr₂ ((safe_reach_sw hsw hsol h₂).data.noExc hsw.noHeads n v₂ hr₂)
   rw [a] at b; exact Option.some.inj b
 
 end MLPE.Eng
